@@ -603,7 +603,7 @@ def lle_configs(tier):
     fam = [
         ('WO', 'lL', {'W': '+?', 'O': '?+'}, None, ['any']),
         ('WO', 'lL', {'W': '++', 'O': '++'}, 'Octane', ['any']),
-        ('WO', 'lL', {'W': '+0', 'O': '0+'}, 'Water', ['int', 'any']),     # second call: cached branch or solver branch
+        ('WO', 'lL', {'W': '+0', 'O': '0+'}, 'Water', ['cache']),     # cached branch or solver branch from any cache state
         ('WO', 'glL', {'W': '++?', 'O': '?0+'}, None, ['any']),
         ('WOG', 'lL', {'W': '+0', 'O': '0+', 'G': '0+'}, 'Octane', ['any']),
         ('WN', 'lL', {'W': '+?', 'N': '?+'}, None, ['any']),          # fewer than 2 LLE chemicals: everything pooled in one phase
@@ -612,14 +612,15 @@ def lle_configs(tier):
     if tier == 'thorough':
         fam += [
             ('WO', 'lL', {'W': '??', 'O': '??'}, 'Octane', ['any']),
-            ('WO', 'lL', {'W': '+?', 'O': '?+'}, 'Octane', ['any', 'any']),
+            ('WO', 'lL', {'W': '++', 'O': '++'}, None, ['cache']),
             ('WEO', 'lL', {'W': '+?', 'E': '++', 'O': '?+'}, 'Octane', ['any']),
-            ('WEO', 'lL', {'W': '+0', 'E': '+0', 'O': '0+'}, None, ['int', 'any']),
+            ('WEO', 'lL', {'W': '+0', 'E': '+0', 'O': '0+'}, None, ['cache']),
             ('WOG', 'glL', {'W': '++?', 'O': '?0+', 'G': '0?+'}, 'Water', ['any']),
         ]
     for keys, phases, d, top, modes in fam:
         out.append({'name': f'{keys}/{phases}/{_dist_name(d, keys)}/top={top}/calls={"+".join(modes)}', 'pkg': keys, 'phases': phases,
-                    'dist': d, 'top': top, 'calls': len(modes), 'modes': modes})
+                    'dist': d, 'top': top, 'calls': len(modes), 'modes': ['any' if m == 'cache' else m for m in modes],
+                    'cache': 'cache' in modes})
     return out
 
 
@@ -637,6 +638,18 @@ def lle(w, cfg):
         s, before = multistream(w, 'f', th, cfg['phases'], cfg['dist'], keys)
         lle_obj = s.lle
         now = None
+        if cfg.get('cache'):
+            # ANY cached state of an earlier call on the same chemicals (inductive over call histories): K >= 0 (it is
+            # x_L/x_l, zeros or 1e16*ones), an arbitrary earlier temperature and composition, phi is only a solver guess
+            cs = s.chemicals
+            present = {i for i, ID in enumerate(cs.IDs) if any(dist_char != '0' for dist_char in cfg['dist'].get(
+                [k for k in keys if chem(k).ID == ID][0], '0'))}
+            lle_chems = [cs.tuple[i] for i in cs.get_lle_indices(present)]
+            lle_obj._lle_chemicals = lle_chems
+            lle_obj._K = env.arr([env.leaf(f'K{i}', lo=0.) for i in range(len(lle_chems))])
+            lle_obj._phi = env.unit('phi_cached')
+            lle_obj._T = env.pos('T_cached')
+            lle_obj._z_mol = env.arr([env.leaf(f'z_cached{i}', lo=0., hi=1.) for i in range(len(lle_chems))])
         for n in range(cfg['calls']):
             T = w.real(f'T{n}', lo=0., lo_strict=True)
             P = w.real(f'P{n}', lo=0., lo_strict=True) if n % 2 == 0 else None
@@ -646,10 +659,6 @@ def lle(w, cfg):
                 w.note(outcome=type(e).__name__)
                 return
             now = ensure_material(w, s, before, keys, owned=('l', 'L'), vle=False, tag=f'call {n}: ')
-            if n + 1 < cfg['calls'] and lle_obj._K is not None:
-                # the cached partition coefficients are x_L/x_l of the previous result: some vector >= 0.  Generalise them to
-                # ANY vector >= 0 (weaker requirement, and keeps the second call's terms from nesting the first call's ratios)
-                lle_obj._K = env.arr([env.leaf(f'K{i}', lo=0.) for i in range(len(lle_obj._K))])
         k0 = chem(keys[0]).ID
         w.canary('canary: l flow of first chemical unchanged + 1', w.eq(now['l', k0], before.get(('l', k0), 0.) + 1))
         w.note(calls=dict(env.calls), flows=now)
@@ -760,3 +769,255 @@ def sle(w, cfg):
     finally:
         env.restore()
         StubGamma.env_now = None
+
+
+# --------------------------------------------------------------------------- Stream.vlle (VLE / LLE at contract level)
+
+def install_vlle_stubs(env, keys):
+    """
+    Stream.vlle is checked against the CONTRACTS of VLE(T,P) and LLE(T,P) proved by the groups above (per chemical
+    l+g resp. l+L is kept, all flows >= 0, gas-locked -> g, liquid/solid-locked -> not in g), each call returning an
+    arbitrary state allowed by that contract, and against
+      A-fixed-point  flx.fixed_point(f, x0) evaluates f at x0 and then only at values f returned, at least once.
+    cfg['script']: mode of the successive equilibrium calls ('int' strictly inside, 'lo' nothing moves to the second
+    phase, 'hi' everything moves, 'any' anywhere in the closed range; default 'int').
+    """
+    w = env.w
+    script = list(env.cfg.get('script', []))
+
+    def next_mode():
+        return script.pop(0) if script else 'int'
+
+    def split(row_a, row_b, i, mode, forced=None):
+        """Redistribute chemical i between two phase rows: b gets v in [0, total], a the rest."""
+        tot = row_a.dct.get(i, 0.) + row_b.dct.get(i, 0.)
+        if not tot:
+            return
+        if forced == 'a' or (forced is None and mode == 'lo'):
+            row_a[i] = tot; row_b[i] = 0.
+        elif forced == 'b' or (forced is None and mode == 'hi'):
+            row_a[i] = 0.; row_b[i] = tot
+        elif mode == 'int':
+            v = env.leaf('v', lo=0., lo_strict=True)
+            w.assume(w.lt(v, tot))
+            row_b[i] = v; row_a[i] = tot - v
+        else:
+            v = env.leaf('v', lo=0.)
+            w.assume(w.le(v, tot))
+            row_b[i] = v; row_a[i] = tot - v
+
+    class ContractVLE:
+        def __init__(self, imol, thermal_condition=None, thermo=None):
+            self.imol = imol
+
+        def __call__(self, *, T, P):
+            env.count('vle')
+            mode = next_mode()
+            l = self.imol['l']; g = self.imol['g']
+            for i, k in enumerate(keys):
+                locked = CHEMS[k][1]
+                split(l, g, i, mode, forced={'g': 'b', 'l': 'a', 's': 'a', None: None}[locked])
+
+    class ContractLLE:
+        def __init__(self, imol, thermal_condition=None, thermo=None):
+            self.imol = imol
+
+        def __call__(self, T, P=None, **kw):
+            env.count('lle')
+            mode = next_mode()
+            l = self.imol['l']; L = self.imol['L']
+            for i, k in enumerate(keys):
+                split(L, l, i, mode)
+
+    class StubEq:
+        VLE = ContractVLE
+        LLE = ContractLLE
+
+    class StubFlx:
+        @staticmethod
+        def fixed_point(f, x, xtol=5e-8, args=(), **kw):
+            env.count('fixed_point')
+            for _ in range(max(1, env.k)):
+                x = f(x, *args)
+            return x
+
+    env.patch(stream_mod, 'eq', StubEq)
+    env.patch(stream_mod, 'flx', StubFlx)
+
+
+def vlle_configs(tier):
+    out = []
+    fam = [
+        ('WO', {'W': '+++', 'O': '+++'}, [], 1),
+        ('WO', {'W': '+0+', 'O': '0++'}, ['lo'], 1),                     # VLE leaves no gas: LLE only
+        ('WO', {'W': '+0+', 'O': '0++'}, ['hi'], 1),                     # VLE leaves no liquid
+        ('WO', {'W': '+0+', 'O': '0++'}, ['int', 'lo'], 1),              # LLE finds one liquid phase
+        ('WON', {'W': '+?+', 'O': '?++', 'N': '+0?'}, [], 1),
+        ('WOG', {'W': '+0+', 'O': '0++', 'G': '?+0'}, ['int', 'int', 'int', 'int', 'any'], 1),
+        ('W', {'W': '???'}, ['any', 'any'], 1),
+    ]
+    if tier == 'thorough':
+        fam += [
+            ('WO', {'W': '???', 'O': '???'}, [], 2),
+            ('WO', {'W': '+++', 'O': '+++'}, ['any', 'any'], 1),
+            ('WO', {'W': '+++', 'O': '+++'}, ['int', 'int', 'any', 'any'], 1),
+            ('WO', {'W': '+++', 'O': '+++'}, ['int', 'int', 'int', 'int', 'any', 'any'], 2),
+            ('WEO', {'W': '+0+', 'E': '?+?', 'O': '0++'}, [], 1),
+        ]
+    for keys, d, script, k in fam:
+        out.append({'name': f'{keys}/{_dist_name(d, keys)}/script={"-".join(script) or "int"}/k={k}', 'pkg': keys, 'dist': d,
+                    'script': script, 'k': k})
+    return out
+
+
+pkg('WON')
+
+
+@group('C03/vlle', configs=vlle_configs,
+       functions=['thermosteam._stream:Stream.vlle'],
+       assumptions=['callee contracts: VLE(T,P) and LLE(T,P) conserve every chemical over their two phases, keep flows >= 0 and '
+                    'honour locked phases (groups C03/vle_TP, C03/lle)',
+                    'A-fixed-point: flx.fixed_point evaluates f at x0 and then only at values returned by f, at least once'])
+def vlle(w, cfg):
+    W.reset_caches()
+    env = Env(w, cfg)
+    keys = cfg['pkg']
+    try:
+        install_vlle_stubs(env, keys)
+        th = havoc_thermo(env, keys)
+        s, before = multistream(w, 'f', th, 'Lgl', cfg['dist'], keys)
+        T = w.real('T', lo=0., lo_strict=True)
+        P = w.real('P', lo=0., lo_strict=True)
+        try:
+            s.vlle(T, P)
+        except NOT_NORMAL as e:
+            w.note(outcome=type(e).__name__)
+            return
+        now = ensure_material(w, s, before, keys, owned=('L', 'g', 'l'))
+        k0 = chem(keys[0]).ID
+        w.canary('canary: total of first chemical doubled', w.eq(now['l', k0] + now['L', k0] + now['g', k0],
+                                                                 2 * (before.get(('l', k0), 0.) + before.get(('L', k0), 0.) + before.get(('g', k0), 0.)) + 1))
+        w.note(calls=dict(env.calls), flows=now)
+    finally:
+        env.restore()
+
+
+# --------------------------------------------------------------------------- mode B: the same clauses as run-time contracts on the REAL solvers
+
+B_PKGS_VLE = ['W', 'WE', 'WEM', 'WEN', 'WEX', 'WEG', 'WENG', 'WES', 'WO']
+for _k in B_PKGS_VLE + ['WEO', 'MT']:
+    pkg(_k)
+
+
+def _b_flows(rnd, keys, phases):
+    """Random non-empty composition over a subset of the package, flows 1e-3..1e3, random initial distribution."""
+    flows = {}
+    present = [k for k in keys if rnd.random() < 0.8] or [keys[0]]
+    for k in present:
+        tot = 10 ** rnd.uniform(-3, 3)
+        r = rnd.random()
+        if r < 0.25: fr = [1.] + [0.] * (len(phases) - 1)
+        elif r < 0.5: fr = [0.] * (len(phases) - 1) + [1.]
+        else:
+            cut = sorted(rnd.random() for _ in range(len(phases) - 1))
+            fr = [b - a for a, b in zip([0.] + cut, cut + [1.])]
+        rnd.shuffle(fr)
+        for ph, f in zip(phases, fr):
+            if f: flows[f'{ph}.{k}'] = tot * f
+    return flows
+
+
+def bounded_configs(tier):
+    import random
+    seed = int(os.environ.get('VERIF_SEED', '0') or 0)
+    rnd = random.Random(1000 + seed)
+    n_vle, n_lle, n_sle, n_vlle = (18, 14, 14, 3) if tier == 'quick' else (220, 150, 150, 30)
+    out = []
+    for spec in SPECS:
+        for n in range(n_vle):
+            keys = B_PKGS_VLE[(n + len(out)) % len(B_PKGS_VLE)] if spec[1] not in 'xy' else ['WE', 'WEM', 'WO', 'WEN'][n % 4]
+            vals = {'T': rnd.uniform(250., 500.), 'P': 10 ** rnd.uniform(4, 6.7), 'V': rnd.choice([0., 1., rnd.random(), rnd.random()]),
+                    'u': rnd.random(), 'T0': rnd.uniform(280., 320.), 'T1': rnd.uniform(400., 480.), 'x0': rnd.uniform(0.02, 0.98)}
+            out.append({'name': f'vle/{spec}/{keys}/{n}', 'kind': 'vle', 'spec': spec, 'pkg': keys,
+                        'flows': _b_flows(rnd, keys, 'gl'), 'vals': vals})
+    for n in range(n_lle):
+        keys = ['WO', 'WEO', 'WEG', 'WEN'][n % 4]
+        out.append({'name': f'lle/{keys}/{n}', 'kind': 'lle', 'pkg': keys, 'flows': _b_flows(rnd, keys, 'lL'),
+                    'vals': {'T': rnd.uniform(280., 370.), 'P': 101325.}, 'top': rnd.choice([None, 'Water', 'Octane']), 'calls': 1 + n % 2})
+    for n in range(n_sle):
+        keys = ['WT', 'MT', 'WMT'][n % 3]
+        out.append({'name': f'sle/{keys}/{n}', 'kind': 'sle', 'pkg': keys, 'flows': _b_flows(rnd, keys, 'ls'),
+                    'vals': {'T': rnd.uniform(270., 330.), 'H': rnd.uniform(-5e5, 5e5) , 'x': rnd.uniform(-0.1, 1.1)},
+                    'call': ['T', 'H', 'Tx', 'Hx'][(n // 3) % 4]})
+    for n in range(n_vlle):
+        keys = ['WEO', 'WO', 'WEN'][n % 3]
+        out.append({'name': f'vlle/{keys}/{n}', 'kind': 'vlle', 'pkg': keys, 'flows': _b_flows(rnd, keys, 'Lgl'),
+                    'vals': {'T': rnd.uniform(300., 400.), 'P': 10 ** rnd.uniform(4.5, 5.5)}})
+    return out
+
+
+@group('C03/bounded_real_solvers', configs=bounded_configs, mode='B',
+       functions=['thermosteam.equilibrium.vle:VLE.__call__', 'thermosteam.equilibrium.lle:LLE.__call__',
+                  'thermosteam.equilibrium.sle:SLE.__call__', 'thermosteam._stream:Stream.vlle'],
+       notes='real solvers and property models, fixed pseudo-random grid (VERIF_SEED): packages of 1-4 chemicals from '
+             'water/ethanol/methanol/octane/N2(g-locked)/NaCl,glucose(l-locked)/sucrose(s-locked)/tetradecanol, subsets present, '
+             'flows 1e-3..1e3 kmol/hr, random initial phase distribution; every VLE specification pair (T 250-500 K, '
+             'P 1e4-5e6 Pa, V in {0,1,random}, H/S between all-liquid and all-vapour values, x/y in (0.02,0.98)), LLE with/without '
+             'top_chemical and repeated calls (cache), SLE T/H/solubility, vlle; calls that raise are skipped')
+def bounded_real_solvers(w, cfg):
+    W.reset_caches()
+    keys = cfg['pkg']
+    th = pkg(keys)
+    kind = cfg['kind']
+    phases = {'vle': 'gl', 'lle': 'lL', 'sle': 'ls', 'vlle': 'Lgl'}[kind]
+    s = tmo.MultiStream(None, phases=tuple(phases), thermo=th)
+    before = {}
+    for key, v in cfg['flows'].items():
+        ph, k = key.split('.')
+        ID = chem(k).ID
+        s.imol[ph, ID] = v
+        before[ph, ID] = v
+    v = cfg['vals']
+    try:
+        if kind == 'vle':
+            spec = cfg['spec']
+            kw = {}
+            mol = s.mol
+            mix = th.mixture
+            for c in spec:
+                if c in 'TPV': kw[c] = v[c]
+                elif c == 'H':
+                    P = v['P']
+                    lo = mix.H('l', mol, v['T0'], P); hi = mix.H('g', mol, v['T1'], P)
+                    kw['H'] = lo + v['u'] * (hi - lo)
+                elif c == 'S':
+                    P = v['P']
+                    lo = mix.S('l', mol, v['T0'], P); hi = mix.S('g', mol, v['T1'], P)
+                    kw['S'] = lo + v['u'] * (hi - lo)
+                else:
+                    kw[c] = np.array([v['x0'], 1. - v['x0']])
+            s.vle(**kw)
+            owned = ('g', 'l')
+        elif kind == 'lle':
+            for n in range(cfg['calls']):
+                s.lle(v['T'] + 1e-4 * n, v['P'], top_chemical=cfg['top'])
+            owned = ('l', 'L')
+        elif kind == 'sle':
+            call = cfg['call']
+            if call.endswith('x'):
+                s.sle('Tetradecanol', T=v['T'])
+            kw = {'T': v['T']} if call[0] == 'T' else {'H': v['H']}
+            if call.endswith('x'): kw['solubility'] = v['x']
+            s.sle('Tetradecanol', **kw)
+            owned = ('l', 's')
+        else:
+            s.vlle(v['T'], v['P'])
+            owned = ('L', 'g', 'l')
+    except Exception as e:       # the property speaks about calls that return normally
+        w.note(outcome=f'{type(e).__name__}: {e}'[:120])
+        w.assume(False)
+        return
+    now = ensure_material(w, s, before, keys, owned=owned, vle=kind in ('vle', 'vlle'))
+    for (ph, ID), x in now.items():
+        w.ensure(f'finite flow[{ph},{ID}]', x == x and abs(x) != float('inf'))
+    w.note(flows={k: x for k, x in now.items() if x})
